@@ -103,11 +103,20 @@ pub fn check_c08_case(c: &C08Case, agg: &mut Agg) -> Result<(), String> {
         agg.foreign_divergences += 1;
         return Ok(());
     }
+    // the privileged part of the matrix is also probed on a halted copy of the same state
+    let mut halted_copy: Option<Engine> = None;
     if e.m.halted {
+        halted_copy = Some(e.clone());
         // bring the contract back so that the hook and user messages are meaningful
         e.run_op(&Op::Resume { user: Caller::Admin, mode: ResumeMode::Same });
         if e.viol.is_some() || e.m.halted {
             return Ok(());
+        }
+    } else if c.salt % 2 == 0 {
+        let mut h = e.clone();
+        h.run_op(&Op::CircuitBreaker { user: Caller::Admin });
+        if h.viol.is_none() && h.m.halted {
+            halted_copy = Some(h);
         }
     }
     let a = e.a.clone();
@@ -187,6 +196,16 @@ pub fn check_c08_case(c: &C08Case, agg: &mut Agg) -> Result<(), String> {
             time_s: None,
         });
     }
+    let inflight_ids: Vec<u64> = m.packets.values().filter(|p| p.status == PStatus::Sent && p.receiver == m.cfg.staker).map(|p| p.seq).collect();
+    if let Some(id) = inflight_ids.first() {
+        probes.push(Probe {
+            name: "RecoverForcedInFlight",
+            msg: ExecuteMsg::RecoverPendingIbcTransfers { paginated: None, selected_packets: Some(vec![*id]), receiver: None },
+            funds: vec![],
+            right: Right::Admin,
+            time_s: None,
+        });
+    }
     probes.push(Probe { name: "CircuitBreaker", msg: ExecuteMsg::CircuitBreaker {}, funds: vec![], right: Right::AdminOrMonitor, time_s: None });
     if let Some(t) = m.earliest {
         probes.push(Probe { name: "AcceptOwnership", msg: ExecuteMsg::AcceptOwnership {}, funds: vec![], right: Right::Nominee, time_s: Some(t.max(now)) });
@@ -218,7 +237,15 @@ pub fn check_c08_case(c: &C08Case, agg: &mut Agg) -> Result<(), String> {
     let all_users: Vec<String> = a.users.clone();
     let mut nontrivial = false;
     let mut trace = String::new();
+    let mut bases: Vec<(&'static str, Engine)> = vec![("running", e.clone())];
+    if let Some(h) = halted_copy {
+        bases.push(("halted", h));
+    }
+    for (state_label, base) in &bases {
     for p in &probes {
+        if *state_label == "halted" && !matches!(p.right, Right::Admin | Right::AdminOrMonitor | Right::Nominee) {
+            continue;
+        }
         // does the message succeed for its rightful principal in this state?
         let rightful: Option<String> = match p.right {
             Right::Admin | Right::AdminOrMonitor => Some(m.admin.clone()),
@@ -228,7 +255,7 @@ pub fn check_c08_case(c: &C08Case, agg: &mut Agg) -> Result<(), String> {
             Right::Anyone => None,
         };
         let run = |who: &str| {
-            let mut x = e.clone();
+            let mut x = base.clone();
             if let Some(t) = p.time_s {
                 x.ch.time_ns = t * 1_000_000_000;
             }
@@ -254,7 +281,7 @@ pub fn check_c08_case(c: &C08Case, agg: &mut Agg) -> Result<(), String> {
                 Right::Anyone => true,
             };
             let (out, before, after, rb, ra) = run(who);
-            let what = format!("{} by {label} ({who}); admin={} nominee={:?} monitors={:?}", p.name, m.admin, m.nominee, m.cfg.monitors);
+            let what = format!("{} by {label} ({who}) [{state_label}]; admin={} nominee={:?} monitors={:?}", p.name, m.admin, m.nominee, m.cfg.monitors);
             if let Some(pn) = &out.panic {
                 return Err(format!("{what}: panic {} at {}", pn.message, pn.location));
             }
@@ -267,7 +294,7 @@ pub fn check_c08_case(c: &C08Case, agg: &mut Agg) -> Result<(), String> {
                 }
                 if rightful_ok {
                     nontrivial = true;
-                    *agg.counters.entry(format!("denied_where_rightful_succeeds.{}", p.name)).or_insert(0) += 1;
+                    *agg.counters.entry(format!("denied_where_rightful_succeeds.{}{}", p.name, if *state_label == "halted" { "@halted" } else { "" })).or_insert(0) += 1;
                 }
             } else {
                 let auth_error = matches!(out.kind, Some(ErrKind::Auth)) || (p.right == Right::Nominee && matches!(out.kind, Some(ErrKind::NoPendingOwner)));
@@ -294,6 +321,10 @@ pub fn check_c08_case(c: &C08Case, agg: &mut Agg) -> Result<(), String> {
             }
             trace.push_str(&format!("{}:{}:{};", p.name, label, out.ok));
         }
+    }
+    if *state_label == "halted" {
+        *agg.flags.entry("privileged_matrix_on_halted_copy".into()).or_insert(0) += 1;
+    }
     }
     agg.evaluations += 1;
     agg.steps += e.stats.steps as u64;
